@@ -25,6 +25,7 @@
 static ESL_KEYHASH *keyhash_create(uint32_t hashsize, int init_key_alloc, int init_string_alloc);
 static uint32_t     jenkins_hash(const char *key, esl_pos_t n, uint32_t hashsize);
 static int          key_upsize(ESL_KEYHASH *kh);
+static int          key_matches(const ESL_KEYHASH *kh, int idx, const char *key, esl_pos_t n);
 
 
 /*****************************************************************
@@ -274,7 +275,7 @@ esl_keyhash_Store(ESL_KEYHASH *kh, const char *key, esl_pos_t n, int *opt_index)
 
   /* Was this key already stored?  */
   for (idx = kh->hashtable[val]; idx != -1; idx = kh->nxt[idx])
-    if (esl_memstrcmp(key, n, kh->smem + kh->key_offset[idx]))
+    if (key_matches(kh, idx, key, n))
       { 
 	if (opt_index) *opt_index = idx; 
 	return eslEDUP; 
@@ -335,24 +336,14 @@ esl_keyhash_Lookup(const ESL_KEYHASH *kh, const char *key, esl_pos_t n, int *opt
   uint32_t val  = jenkins_hash(key, n, kh->hashsize);
   int      idx;
 
-  if (n == -1) 
-    {
-      for (idx = kh->hashtable[val]; idx != -1; idx = kh->nxt[idx])
-	if (strcmp(key, kh->smem + kh->key_offset[idx]) == 0)
-	  { 
-	    if (opt_index) *opt_index = idx;
-	    return eslOK; 
-	  }
-    }
-  else
-    {
-      for (idx = kh->hashtable[val]; idx != -1; idx = kh->nxt[idx])
-	if (esl_memstrcmp(key, n, kh->smem + kh->key_offset[idx]))
-	  { 
-	    if (opt_index) *opt_index = idx;
-	    return eslOK; 
-	  }
-    }
+  if (n == -1) n = strlen(key);
+
+  for (idx = kh->hashtable[val]; idx != -1; idx = kh->nxt[idx])
+    if (key_matches(kh, idx, key, n))
+      { 
+	if (opt_index) *opt_index = idx;
+	return eslOK; 
+      }
 
   if (opt_index != NULL) *opt_index = -1;
   return eslENOTFOUND;
@@ -412,6 +403,24 @@ keyhash_create(uint32_t hashsize, int init_key_alloc, int init_string_alloc)
  ERROR:
   esl_keyhash_Destroy(kh);
   return NULL;
+}
+
+
+/* key_length(), key_matches()
+ * Keys stored by explicit length may contain NUL bytes, so a stored key
+ * is delimited by its offsets in <smem> (each key is followed by one
+ * '\0'), not by strlen().
+ */
+static esl_pos_t
+key_length(const ESL_KEYHASH *kh, int idx)
+{
+  return ((idx+1 < kh->nkeys) ? kh->key_offset[idx+1] : kh->sn) - kh->key_offset[idx] - 1;
+}
+
+static int
+key_matches(const ESL_KEYHASH *kh, int idx, const char *key, esl_pos_t n)
+{
+  return (key_length(kh, idx) == n && (n == 0 || memcmp(key, kh->smem + kh->key_offset[idx], n) == 0));
 }
 
 
@@ -493,7 +502,7 @@ key_upsize(ESL_KEYHASH *kh)
   /* Store all the keys again. */
   for (i = 0; i < kh->nkeys; i++) 
     {
-      val                = jenkins_hash(kh->smem + kh->key_offset[i], -1, kh->hashsize);
+      val                = jenkins_hash(kh->smem + kh->key_offset[i], key_length(kh, i), kh->hashsize);
       kh->nxt[i]         = kh->hashtable[val];
       kh->hashtable[val] = i;
     }
